@@ -1425,26 +1425,26 @@ def _connect_adapter(repo, mod, clsname, othername, r):
         raise AnalysisError(f"anchor vanished: {clsname}.connect has no branch for {othername}")
 
     def bookkeeping(st):
-        # naming of the inserted component on the parent, the instance counter, the result
-        names = {n.id for n in ast.walk(st) if isinstance(n, ast.Name)}
-        if isinstance(st, ast.Return):
-            return True
-        if isinstance(st, ast.If) and isinstance(st.test, ast.Call) and norm(st.test.func) == 'hasattr' and parent in names:
-            if any(isinstance(n, ast.Call) and norm(n.func) in ('connect', 'connect_pairs') for n in ast.walk(st)):
-                raise AnalysisError(f"{clsname}.connect: connection inside the naming bookkeeping")
-            return True
-        if isinstance(st, ast.AugAssign) and isinstance(st.target, ast.Attribute) and norm(st.target.value) == parent:
-            return True
-        return False
+        return isinstance(st, ast.Return)        # the result of connect(); everything else is interpreted
     elab = Elaborator(repo)
     rother = repo.resolve(mod, othername)
     if rother is None or not isinstance(rother[1], ast.ClassDef):
         raise AnalysisError(f"anchor vanished: {othername} cannot be resolved from {mod.rel}")
 
+    the_parent = Inst(None, None, False)      # shared: the second adapter finds the bookkeeping left by the first
+
     def make_env(e, nl):
         giver = e.instantiate(nl, ClassRef(mod, cls), [D], {})
         recv = e.instantiate(nl, ClassRef(rother[0], rother[1]), [D], {})
-        return {other: recv, parent: Inst(None, None, False)}, giver
+        return {other: recv, parent: the_parent}, giver
+    out = []
+    for nth in ('first', 'second'):
+        out += [(k, f"{nth} adapter inserted on a parent: {msg}") for k, msg in
+                _connect_eval(elab, mod, cls, branch, make_env, me, other, bookkeeping, r)]
+    return out
+
+
+def _connect_eval(elab, mod, cls, branch, make_env, me, other, bookkeeping, r):
     out = []
     try:
         nl, env = elab.run_snippet(mod, cls, branch, make_env, me, skip=bookkeeping)
@@ -2047,6 +2047,8 @@ MUTANTS = [
        "  @non_blocking( lambda s: s.enq_rdy )\n  def enq( s, msg ):\n    s.queue.appendleft( msg )", 'R-C17-copy'),
     # -- adapters through which queues are chained / driven from CL and FL code (round 4 of seeded bugs)
     _m('adapter-and-ignores-receiver-rdy', GGI, "        m.in1, other.rdy,", "        m.in1, s.rdy,", 'R-C17-connect'),
+    _m('adapter-and-wired-only-for-first', GGI, "      connect_pairs(\n        m.in0, s.rdy,\n        m.in1, other.rdy,",
+       "      connect_pairs(\n        m.in0, s.rdy,\n        m.in1, other.rdy if parent.give_recv_ander_cnt == 0 else s.rdy,", 'R-C17-connect'),
     _m('adapter-and-enable-only-giver', GGI, "        m.out, other.en,", "        m.in0, other.en,", 'R-C17-connect'),
     _m('adapter-sendq-guard-truthiness', SQA, "@non_blocking( lambda s: s.entry is None )", "@non_blocking( lambda s: not s.entry )", 'R-C17-buffer'),
     _m('adapter-recvfl2sendrtl-waits-once', SRI, "    while s.entry is not None:\n      greenlet.getcurrent().parent.switch(0)\n    s.entry = clone_deepcopy( msg )",
@@ -2124,6 +2126,13 @@ EQUIV = [
        "      if s.recv.val:\n        if s.entry is None:\n          s.entry = clone_deepcopy( s.recv.msg )"),
     _m('adapter-wait-loop-negated-form', SRI, "    while s.entry is not None:\n      greenlet.getcurrent().parent.switch(0)\n    s.entry = clone_deepcopy( msg )",
        "    while not (s.entry is None):\n      greenlet.getcurrent().parent.switch(0)\n    s.entry = clone_deepcopy( msg )"),
+    _m('adapter-naming-branches-flipped', GGI,
+       "      if hasattr( parent, \"give_recv_ander_cnt\" ):\n        cnt = parent.give_recv_ander_cnt\n"
+       "        setattr( parent, \"give_recv_ander_\" + str( cnt ), m )\n      else:\n"
+       "        parent.give_recv_ander_cnt = 0\n        parent.give_recv_ander_0   = m\n",
+       "      if not hasattr( parent, \"give_recv_ander_cnt\" ):\n        parent.give_recv_ander_cnt = 0\n"
+       "        parent.give_recv_ander_0   = m\n      else:\n        cnt = parent.give_recv_ander_cnt\n"
+       "        setattr( parent, \"give_recv_ander_\" + str( cnt ), m )\n"),
     _m('adapter-and-inputs-swapped', GGI, "        m.in0, s.rdy,\n        m.in1, other.rdy,", "        m.in1, s.rdy,\n        m.in0, other.rdy,"),
     _m('adapter-send-branches-swapped', SRI, "      if s.entry is None:\n        s.send.en  @= b1( 0 )\n      else:\n        s.send.en  @= b1( s.send.rdy )\n        s.send.msg @= s.entry",
        "      if s.entry is not None:\n        s.send.en  @= b1( s.send.rdy )\n        s.send.msg @= s.entry\n      else:\n        s.send.en  @= b1( 0 )"),
